@@ -542,8 +542,12 @@ outerNew:
 					if col+i >= len(vx.screenNext.buf[row]) {
 						break
 					}
-					// null out any cells we end up skipping
-					vx.screenLast.buf[row][col+i] = Cell{}
+					// We don't know what the terminal shows in the cells
+					// we end up skipping. Mark them the way cells under
+					// an image are marked: they never compare equal to
+					// anything, not even to a never written cell, and
+					// get repainted once they are uncovered
+					vx.screenLast.buf[row][col+i] = Cell{sixel: true}
 				}
 				col += skip
 				continue
@@ -748,8 +752,12 @@ outerNew:
 				if col+i >= len(vx.screenNext.buf[row]) {
 					break
 				}
-				// null out any cells we end up skipping
-				vx.screenLast.buf[row][col+i] = Cell{}
+				// We don't know what the terminal shows in the cells
+				// we end up skipping. Mark them the way cells under
+				// an image are marked: they never compare equal to
+				// anything, not even to a never written cell, and
+				// get repainted once they are uncovered
+				vx.screenLast.buf[row][col+i] = Cell{sixel: true}
 			}
 			col += skip
 		}
